@@ -1,4 +1,5 @@
 import NbioVerif.Properties.C13
+import NbioVerif.Lemmas.SrcBridgeWs
 #print axioms Ws.rfcCfg_eq
 #print axioms Ws.c13_partial
 #print axioms Ws.agree_of_obs
@@ -18,3 +19,5 @@ import NbioVerif.Properties.C13
 #print axioms Ws.c13_closeCode_table
 #print axioms Ws.c13_closeCode_rfc
 #print axioms Ws.c13_readlimit
+#print axioms Ws.src_validFrame
+#print axioms Ws.src_validCloseCode
